@@ -68,7 +68,10 @@ theorem C04_tree (o1 o2 : Order) (h1 : OrderOK o1) (h2 : OrderOK o2) (n : Nat)
     (postAll o1 (State.empty n) as = .fail → ∀ s2, postAll o2 (State.empty n) bs = .ok s2 →
         ∀ γ : Subst, ¬ StateSem γ s2) := C02_order_free o1 o2 h1 h2 n as bs hp
 
-/-! ### conjunctions with finite-domain and CLP(Z) conjuncts -/
+/-! ### conjunctions with finite-domain and CLP(Z) conjuncts (both modes of Spec/FDSem.lean: `distinctfd`
+    conjuncts are covered in the lax mode) -/
+section FDConj
+variable [Mode]
 
 /-- COMMUTATIVITY OF CONJUNCTION for constraint atoms (FD, CLP(Z), `==`, `!=`): every permutation of the
     conjuncts, under any hash-iteration orders, reaches a state describing the SAME valuations; and if one
@@ -153,6 +156,8 @@ theorem C04_program_congr (p p' q q' : FProg) (hp : ∀ γ, FSols p γ ↔ FSols
   · rw [conj_iff, conj_iff, hp γ, hq γ]
   · rw [alt_iff, alt_iff, hp γ, hq γ]
   · exact hp γ
+
+end FDConj
 
 section Examples
 private def defs0 : Unit → Nat → Nat × Goal Nat Unit := fun _ a => (a, .fail)
